@@ -199,7 +199,14 @@ fn render(body: &[Node], atoms: &[Atom], has_return: bool) -> String
 		s.push_str("fn f(p: i32)\n{\n");
 	}
 	let at = |k: usize| atom_text(&atoms[k]);
-	treegen::print_seq(body, 1, &at, &mut s);
+	let mut body_text = String::new();
+	treegen::print_seq(body, 1, &at, &mut body_text);
+	// every fourth body on ONE source line (line numbers must not matter)
+	if fnv(&body_text) % 4 == 0
+	{
+		body_text = format!("\t{}\n", body_text.split_whitespace().collect::<Vec<_>>().join(" "));
+	}
+	s.push_str(&body_text);
 	if has_return
 	{
 		s.push_str("\treturn: p\n");
@@ -415,7 +422,7 @@ impl Check for C04
 	}
 	fn rule(&self) -> String
 	{
-		"function bodies over {label, goto, if-goto, call, block, if-block, if-else-blocks}: (a) EVERY body of <= 5 (quick) / <= 6 (thorough) statement nodes, nesting <= 3, over 2 label names plus `return`, each in a void and a value-returning function (exhaustive); (b) random bodies of up to 40 nodes, depth 5, 4 label names, gotos to `return` and to a label that exists only in another function. Oracle: an independent model of reverse label scope predicts the exact multiset of E400 (one per goto without a later/outer visible target) and E420 (one per label that clashes with a later visible label); verdict and sorted Errors::codes() must equal it, both directions. Non-trivial: a goto resolved outward from a nested block, a clash, or gotos together with nested labels; distinct by body.".into()
+		"function bodies over {label, goto, if-goto, call, block, if-block, if-else-blocks}: (a) EVERY body of <= 5 (quick) / <= 6 (thorough) statement nodes, nesting <= 3, over 2 label names plus `return`, each in a void and a value-returning function (exhaustive); every fourth body is printed on a single source line; (b) random bodies of up to 40 nodes, depth 5, 4 label names, gotos to `return` and to a label that exists only in another function. Oracle: an independent model of reverse label scope predicts the exact multiset of E400 (one per goto without a later/outer visible target) and E420 (one per label that clashes with a later visible label); verdict and sorted Errors::codes() must equal it, both directions. Non-trivial: a goto resolved outward from a nested block, a clash, or gotos together with nested labels; distinct by body.".into()
 	}
 	fn assumptions(&self) -> Vec<String>
 	{
